@@ -130,7 +130,9 @@ def facts(src, strip_comments, fn_body):
         pieces.append(("server.rs EVAL arm", srv[m.end():i]))
     else:
         missing.append("EVAL arm")
-    for text, fn, label in ((srv, "handle_evalsha_command", "server.rs"), (lua_cmd, "handle_eval_with_db", "lua.rs"),
+    # the function that evaluates: handle_eval_with_publish since 2c7061f (handle_eval_with_db is its one-line wrapper)
+    EVALFN = "handle_eval_with_publish" if fn_body(lua_cmd, "handle_eval_with_publish") is not None else "handle_eval_with_db"
+    for text, fn, label in ((srv, "handle_evalsha_command", "server.rs"), (lua_cmd, EVALFN, "lua.rs"),
                             (eng, "eval", "lua_engine.rs"), (eng, "create_lua_context", "lua_engine.rs"),
                             (eng, "execute_unified_redis_command", "lua_engine.rs"),
                             (eng, "resp_frame_to_lua_value", "lua_engine.rs"),
@@ -144,7 +146,7 @@ def facts(src, strip_comments, fn_body):
         out["sync_why"] = "not found: " + ", ".join(missing)
     else:
         bad = [lab for lab, b in pieces if SYNC_BAD.search(b)]
-        calls_ok = ("handle_eval_with_db(" in pieces[0][1] and "lua_engine.eval(" in dict(pieces)["lua.rs: handle_eval_with_db"]
+        calls_ok = (bool(re.search(r"handle_eval_with_(?:db|publish)\(", pieces[0][1])) and "lua_engine.eval(" in dict(pieces)["lua.rs: " + EVALFN]
                     and "execute_lua_command(" in dict(pieces)["lua_engine.rs: execute_unified_redis_command"]
                     and "self.executor.execute(" in dict(pieces)["executor.rs: execute_lua_command"])
         out["sync"] = (not bad) and calls_ok
@@ -182,7 +184,7 @@ def facts(src, strip_comments, fn_body):
         q["utf8ArgsOnly"] = bool(re.search(r"s\.to_str\(\)", ubody)) and "Invalid UTF-8" in ubody
     esha = fn_body(srv, "handle_evalsha_command")
     if esha is not None:
-        if re.search(r"handle_eval_with_db\s*\(", esha):
+        if re.search(r"handle_eval_with_\w+\s*\([^;]*\bdb\b", esha):      # handle_eval_with_db / _with_publish(.., db, ..)
             q["evalshaDb0"] = False
         elif re.search(r"lua::handle_eval\s*\(", esha):
             q["evalshaDb0"] = True
